@@ -51,3 +51,21 @@ Definition aba2_progs (t : nat) : list dop :=
   end.
 Definition aba2_sched : list nat :=
   repeat 0%nat 9 ++ repeat 1%nat 70 ++ repeat 0%nat 1.
+
+(* ---- the mirror images of both schedules (left and right exchanged in the main thread's and in A's
+   and B's programs): they exercise stabilize_left and the LEFT link's tag — word 0 of the chunk,
+   whose pointer bits the freelist overwrites.  A corrupted left link is invisible to the drain from
+   the left (pop_left follows right links), so A pops [extra] times from the right after its push.
+   The code is symmetric, so B needs the same number of steps; A's tail is longer. ---- *)
+Definition mirror_op (o : dop) : dop :=
+  match o with Push s v => Push (opp s) v | Pop s => Pop (opp s) end.
+Definition mirror_progs (p : nat -> list dop) (extra : nat) (t : nat) : list dop :=
+  match t with
+  | 3%nat => p t
+  | 0%nat => map mirror_op (p t) ++ repeat (Pop SR) extra
+  | _ => map mirror_op (p t)
+  end.
+Definition aba3_progs := mirror_progs aba_progs 3.
+Definition aba4_progs := mirror_progs aba2_progs 2.
+Definition aba3_sched : list nat := repeat 0%nat 9 ++ repeat 1%nat 42 ++ repeat 0%nat 14.
+Definition aba4_sched : list nat := repeat 0%nat 9 ++ repeat 1%nat 70 ++ repeat 0%nat 9.
